@@ -141,6 +141,18 @@ class Effects:
         if isinstance(expr, ast.UnaryOp) and isinstance(expr.op, ast.Not):
             self._exprs(expr.operand, stmt, conds, loops, gens, not negated)
             return
+        if isinstance(expr, ast.BoolOp) and not gens:
+            # short-circuit evaluation: the n-th operand runs only if all earlier ones were falsy (or) / truthy (and)
+            c = list(conds)
+            for v in expr.values:
+                self._exprs(v, stmt, c, loops, gens, False)
+                c = c + [(v, isinstance(expr.op, ast.And))]
+            return
+        if isinstance(expr, ast.IfExp):
+            self._exprs(expr.test, stmt, conds, loops, gens, False)
+            self._exprs(expr.body, stmt, list(conds) + [(expr.test, True)], loops, gens, False)
+            self._exprs(expr.orelse, stmt, list(conds) + [(expr.test, False)], loops, gens, False)
+            return
         if isinstance(expr, ast.Call) and isinstance(expr.func, ast.Attribute):
             t = self._target(expr.func.value)
             if t:
